@@ -5,3 +5,4 @@ import Generated.CoreScanner
 import Generated.CoreConsiderLine
 import Generated.CoreModes
 import Generated.CoreMatches
+import Generated.CoreWhen
